@@ -93,12 +93,14 @@ def check(run):
     tr1 = {'LRG': hodref.gen_tracers(rng, ('LRG',), fancy=False)['LRG']}
     tr1['LRG'].update(logM_cut=11.0, logM1=11.5, sigma=0.3, kappa=0.1, ic=1.0)
     params1 = dict(z=0.5, velz2kms=100.0, Lbox=2000.0, origin=None, Mpart=2.1e9, chunk=-1)
-    halo_all, part_all = hodref.gen_tables(rng, Nmax, Nmax, lbox=2000.0, with_env=False)
+    extra_sizes = [255, 256, 257, 512, 768, 1024, 2048, 4096] if run.quick else [255, 256, 257, 511, 512, 513, 768, 1024, 1280, 2048, 3072, 4096, 8192, 65536, 65537]  # per-thread blocks holding exactly 2^8, 2^9 ... selected hosts / particles
+    Nall = max(Nmax, max(extra_sizes))
+    halo_all, part_all = hodref.gen_tables(rng, Nall, Nall, lbox=2000.0, with_env=False)
     halo_all['hmass'][:] = 1e14
     halo_all['hrandoms'][:] = 0.0
     halo_all['hmultis'][:] = 1.0
-    part_all.update(phmass=np.full(Nmax, 1e14), prandoms=np.zeros(Nmax), pweights=np.full(Nmax, 0.3), pinds=np.arange(Nmax, dtype=np.int64), phid=halo_all['hid'].copy(), phvel=halo_all['hvel'].copy())
-    for N in range(1, Nmax + 1):
+    part_all.update(phmass=np.full(Nall, 1e14), prandoms=np.zeros(Nall), pweights=np.full(Nall, 0.3), pinds=np.arange(Nall, dtype=np.int64), phid=halo_all['hid'].copy(), phvel=halo_all['hvel'].copy())
+    for N in list(range(1, Nmax + 1)) + extra_sizes:
         h = {k2: v[:N] for k2, v in halo_all.items()}
         p = {k2: v[:N] for k2, v in part_all.items()}
         base = None
